@@ -2,6 +2,15 @@
 Oracle driver for C05 (trie queries).  Header: `trie <hexpattern>…` (inserted in order,
 then `BuildFailureLinks`).  Ops: `match <hex>`, `findall <hex>`, `prefix <hex>`,
 `fuzzy <hex>`.  String lists print as `[hex hex …]` (nil and empty both `[]`).
+
+`dump` (no argument) prints the STRUCTURE of the trie, to be compared with the same line
+computed by the Go harness from the real pointer structure (reflection over the unexported
+fields of `algz.Trie`): every node in depth-first pre-order following the node's child
+array in array order, one entry `<path>;<size>;<isEnd 0/1>;<failpath>` per node joined by
+`|`; path = the runes from the root as signed decimals joined by `,` (root `.`), failpath =
+path of `node.fail` (`nil` for a nil pointer).  This ties the label trie of the model
+(`Trie.children`, `sizeOf`, `isEnd`, `Trie.failOf`) to the pointer trie node by node, not
+only through query results.
 -/
 import Golib.Model.C05Trie
 
@@ -13,9 +22,34 @@ def showStrs (xs : List (List Nat)) : String :=
 
 def bytesOK (bs : List Nat) : Bool := bs.all (· < 256)
 
+def showPath (n : Label) : String :=
+  if n.isEmpty then "." else ",".intercalate (n.map fun (r : Int) => toString r)
+
+/-- One node entry of `dump`. -/
+def dumpEntry (t : Trie) (n : Label) : String :=
+  showPath n ++ ";" ++ toString (sizeOf t.pats n) ++ ";" ++ (if isEnd t.pats n then "1" else "0") ++ ";" ++
+    (match t.failOf n with
+     | none => "nil"
+     | some m => showPath m)
+
+/-- Depth-first pre-order over the label trie with an explicit stack (top = head): pop a
+node, print it, push its children in array order.  Every iteration prints one node, so
+`nodeBound + 1` iterations suffice (`none` = out of fuel or a child array that panics). -/
+def dumpLoop (t : Trie) : Nat → List Label → List String → Option (List String)
+  | _, [], acc => some acc.reverse
+  | 0, _ :: _, _ => none
+  | fuel + 1, n :: stack, acc =>
+    match t.children n with
+    | none => none
+    | some cs => dumpLoop t fuel (cs.map (fun v => n ++ [v]) ++ stack) (dumpEntry t n :: acc)
+
+def dumpLine (t : Trie) : Option String :=
+  (dumpLoop t (nodeBound t.pats + 1) [[]] []).map fun es => "|".intercalate es
+
 /-- One query; `none` = bad-op, `some none` = panic. -/
 def runOp (t : Trie) (ts : List String) : Option (Option String) :=
   match ts with
+  | ["dump"] => some (dumpLine t)
   | [op, arg] =>
     match unhex arg with
     | none => none
